@@ -25,6 +25,7 @@ import (
 	"sync"
 	"sync/atomic"
 	"time"
+	"verif/appchild"
 
 	"github.com/TarsCloud/TarsGo/tars/protocol"
 	"github.com/TarsCloud/TarsGo/tars/transport"
@@ -625,6 +626,7 @@ func sizesFor(r *rand.Rand, maxLen int, n int, withMax bool) []int {
 }
 
 func main() {
+	appchild.MaybeChild()
 	run = vlib.Start("C07")
 	rogger.SetLevel(rogger.OFF)
 	run.SetRule("scenarios = (side server/client, max-length setting {64,4096,1MiB,10MiB}, pool 0/1, packet sequence of 1..200 packets with sizes from {4,5,6,...,4095..4097,8191..8193,random<=256KiB,max-1,max}, partition kind {one write, single bytes, inside the 4-byte prefix, packet boundaries+-1, per packet, 3 coalesced, packet+part of next prefix, random}, pacing {none, yield, 1ms}) plus illegal prefixes {0,1,3,max+1,2^31,2^32-1} after j good packets with a bystander connection, and on the client side a packet cut short followed by a reconnect; several 3 MiB responses of parallel handlers on one connection. A case is one scenario; distinct = distinct (side, max, size sequence, observed buffer-length sequence).")
@@ -744,6 +746,9 @@ func main() {
 		}
 	}
 	protocol.SetMaxPackageLength(10485760)
+	for _, lim := range []int{64, 4096} {
+		appLimitScenario(lim)
+	}
 	np := 0
 	distinctPartitions.Range(func(_, _ interface{}) bool { np++; return true })
 	run.Set("distinct_observed_buffer_length_sequences", np)
